@@ -1620,6 +1620,9 @@ func isFileInt(v ssa.Value, fns map[*ssa.Function]bool) bool {
 
 // R2.12 [C02]
 func ruleAllocFromFileInt(c *eng.Ctx) {
+	if os.Getenv("VDEBUG") == "fidx" {
+		DebugFileIntIndex(c)
+	}
 	const R = "R2.12-ALLOC-FROM-FILE-INT"
 	c.Rule(R, "no slice, map or channel is sized by an integer read from the file (a converted core.Int/core.Real, directly or through the accessors that return one) unless a comparison with a constant or with the length of data that is present bounds it first: a negative or huge /Count, /N, /Length or /Size otherwise aborts the process in make()", 1, 1)
 	fns := fileIntFuncs(c.P)
@@ -1631,6 +1634,7 @@ func ruleAllocFromFileInt(c *eng.Ctx) {
 		k := 0
 		eng.Instrs(fn, false, func(in ssa.Instruction) {
 			var sizes []ssa.Value
+			viaCallSites := false
 			switch x := in.(type) {
 			case *ssa.MakeSlice:
 				sizes = []ssa.Value{x.Len, x.Cap}
@@ -1640,6 +1644,18 @@ func ruleAllocFromFileInt(c *eng.Ctx) {
 				}
 			case *ssa.MakeChan:
 				sizes = []ssa.Value{x.Size}
+			case *ssa.Call:
+				// image.NewGray(image.Rect(0, 0, w, h)) and its siblings allocate w*h pixels
+				nm := eng.CalleeName(x)
+				if !strings.HasPrefix(nm, "image.New") || len(x.Call.Args) == 0 {
+					return
+				}
+				if rc, ok := x.Call.Args[0].(*ssa.Call); ok && eng.CalleeName(rc) == "image.Rect" {
+					sizes = append(sizes, rc.Call.Args...)
+					viaCallSites = true
+				} else {
+					return
+				}
 			default:
 				return
 			}
@@ -1664,6 +1680,34 @@ func ruleAllocFromFileInt(c *eng.Ctx) {
 					return false
 				}
 				ok := hasUpperGuard(fn, sz, in.Block(), accept) || bounded(fn, sz, 1<<30, true, in.Block(), 0)
+				if !ok && viaCallSites {
+					ok = fieldGuardedAtCallSites(c.P, fn, sz, accept, 0)
+					if !ok {
+						// the other dimension is bounded by a quotient of the data length by this one
+						// (w <= len*8/h): the product is bounded
+						me, isF := eng.LoadOfField(sz)
+						for _, other := range sizes {
+							if other == sz || !isF {
+								continue
+							}
+							if fieldGuardedAtCallSites(c.P, fn, other, func(b ssa.Value) bool {
+								if !accept(b) {
+									return false
+								}
+								for w := range eng.Slice(b, nil) {
+									if q, isQ := w.(*ssa.BinOp); isQ && q.Op == token.QUO {
+										if fq, ok := eng.LoadOfField(q.Y); ok && fq.Field == me.Field && fq.Struct == me.Struct {
+											return true
+										}
+									}
+								}
+								return false
+							}, 0) {
+								ok = true
+							}
+						}
+					}
+				}
 				key := fmt.Sprintf("%s#make%d", eng.FuncName(fn), k)
 				c.Check(ok, R, key, in.Pos(), "file-supplied size bounded before the allocation",
 					"an allocation is sized by an integer taken from the file with no upper bound on the way: a negative or huge value panics in make() or exhausts memory")
@@ -3212,4 +3256,90 @@ func ruleInlineContainersRecursive(c *eng.Ctx) {
 	if n == 0 {
 		c.Ok(R, "odt.decodeInlineContent#containers", root.Pos(), "no inline element is decoded into a struct of its own")
 	}
+}
+
+// DebugFileIntIndex lists index and slice operations whose index derives from a file integer (development aid).
+func DebugFileIntIndex(c *eng.Ctx) {
+	fns := fileIntFuncs(c.P)
+	for _, fn := range c.P.ModuleFuncs() {
+		if fn.Blocks == nil {
+			continue
+		}
+		eng.Instrs(fn, false, func(in ssa.Instruction) {
+			var idxs []ssa.Value
+			switch x := in.(type) {
+			case *ssa.IndexAddr:
+				idxs = []ssa.Value{x.Index}
+			case *ssa.Index:
+				idxs = []ssa.Value{x.Index}
+			case *ssa.Slice:
+				idxs = []ssa.Value{x.Low, x.High}
+			default:
+				return
+			}
+			for _, ix := range idxs {
+				if ix == nil {
+					continue
+				}
+				if _, isC := eng.ConstInt(ix); isC || !isFileInt(ix, fns) {
+					continue
+				}
+				up := hasUpperGuard(fn, ix, in.Block(), func(ssa.Value) bool { return true })
+				lo := bounded(fn, ix, 0, false, in.Block(), 0)
+				fmt.Fprintf(os.Stderr, "FIDX %s %s upper=%v lower=%v\n", c.P.Pos(in.Pos()), eng.FuncName(fn), up, lo)
+			}
+		})
+	}
+}
+
+// fieldGuardedAtCallSites: sz is a field of the receiver/parameter of the unexported function fn, and every call site
+// of fn (transitively through unexported callers) is reached only after a comparison bounded the same field from
+// above.
+func fieldGuardedAtCallSites(p *eng.Prog, fn *ssa.Function, sz ssa.Value, accept func(ssa.Value) bool, depth int) bool {
+	fr, ok := eng.LoadOfField(sz)
+	if !ok || depth > 3 {
+		return false
+	}
+	if obj, isF := fn.Object().(*types.Func); !isF || obj.Exported() {
+		return false
+	}
+	n, all := 0, true
+	for _, g := range p.ModuleFuncs() {
+		if g.Pkg != fn.Pkg {
+			continue
+		}
+		for _, ci := range eng.Calls(g, true, func(_ string, ci ssa.CallInstruction) bool { return eng.StaticCallee(ci) == fn }) {
+			n++
+			host := ci.Parent()
+			guarded := eng.GuardedBy(host, ci.Block(), func(f eng.Fact) bool {
+				op, x, y, ok := f.Cmp()
+				if !ok {
+					return false
+				}
+				if op == token.GTR || op == token.GEQ {
+					op, x, y = eng.Swap(op), y, x
+				}
+				if op != token.LSS && op != token.LEQ {
+					return false
+				}
+				fx, isF := eng.LoadOfField(x)
+				return isF && fx.Field == fr.Field && fx.Struct == fr.Struct && accept(y)
+			})
+			if !guarded {
+				// the caller may itself be an unexported converter reached only through a guarded call
+				var inner ssa.Value
+				eng.Instrs(host, false, func(in ssa.Instruction) {
+					if u, ok := in.(*ssa.UnOp); ok {
+						if f2, ok := eng.LoadOfField(u); ok && f2.Field == fr.Field && f2.Struct == fr.Struct {
+							inner = u
+						}
+					}
+				})
+				if inner == nil || !fieldGuardedAtCallSites(p, host, inner, accept, depth+1) {
+					all = false
+				}
+			}
+		}
+	}
+	return n > 0 && all
 }
